@@ -22,7 +22,7 @@ EXPLANATION = (
     "call, a changed width, endianness, magic constant or conversion type — is the violation. Plus state-machine rules of "
     "the hand-written poll_* implementations shared with C14.R3/C02.R1."
     " (R3) the async BGZF reader keeps the stamp/position pairing of C02.R6 in async fn seek, poll_seek and poll_fill_buf."
-    " (R4) poll functions: a value drained from the receiver's state is stored back or handed to the sink before any Poll::Pending return. (R5) the async BGZF reader's poll_seek state machine cannot answer Ready(Ok) from its resting state without the arm that seeks (genuine defect F29, repaired). (R6) the async CRAM flush advances record_counter by the length of the collection it handed to write_container.")
+    " (R4) poll functions: a value drained from the receiver's state is stored back or handed to the sink before any Poll::Pending return. (R5) the async BGZF reader's poll_seek state machine cannot answer Ready(Ok) from its resting state without the arm that seeks (genuine defect F29, repaired). (R6) the async CRAM flush advances record_counter by the length of the collection it handed to write_container. (R7) no accumulating read future is polled on the digesting CrcReader (shared with C12.R9). (R8) twin scanners agree on what the number they return counts (genuine defect F49, repaired).")
 ASSUMPTIONS = ["the sync side is pinned by the unit-test suite; the async side inherits that through set equality",
                "the frozen differences are today's behaviour: recorded, partly triaged, not claimed equivalent"]
 NOT_DECIDED = ["equality of results under every poll schedule / Pending pattern (only the structural necessary part: same checks, "
